@@ -686,14 +686,14 @@ def bg(args, stdin=None):
     Resume execution of the currently active job in the background, or, if a
     single number is given as an argument, resume that job in the background.
     """
-    res = resume_job(args, wording="bg")
-    if res is None:
-        with _jobs_lock:
-            curtask = get_task(get_tasks()[0])
-            curtask["bg"] = True
-        _continue(curtask)
-    else:
-        return res
+    selected = _select_job_to_resume(args, "bg")
+    if not isinstance(selected, dict):
+        return selected  # (out, err) error tuple
+    selected["pipeline"].resume(selected, tee_output=False)
+    # mark the job that was resumed - not whatever is at the front of the
+    # queue by now (the main thread may have started another job meanwhile)
+    selected["bg"] = True
+    _continue(selected)
 
 
 def job_id_completer(xsh, **_):
